@@ -150,6 +150,16 @@ func runC24(tb stat.TB, c c24Case) {
 			}
 			var err error
 			what := fmt.Sprintf("update#%d via %s", i, u.API)
+			// every request of the case so far has been answered, so an update has nothing to wait for: one that does
+			// not return leaves a server that serves nothing any more
+			stuck := false
+			upd := func(f func() error) error {
+				e, returned := s.bounded(f)
+				if !returned {
+					stuck = true
+				}
+				return e
+			}
 			zeroish := u.TransferSize <= 1 || u.AttrCacheSize <= 1 || u.Timeouts != 3 || u.AttrTTL <= 1 || rlc == nil
 			switch u.API {
 			case "export":
@@ -158,7 +168,10 @@ func runC24(tb stat.TB, c c24Case) {
 					EnableDirCache: u.DirCache, DirCacheTimeout: c24Durs[u.DirTTL], DirCacheMaxEntries: c24Ints[u.DirEntries], DirCacheMaxDirSize: c24Ints[u.DirSize],
 					MaxWorkers: u.Workers, MaxConnections: c24Ints[u.MaxConn], IdleTimeout: c24Durs[u.Idle], SendBufferSize: c24Ints[u.SendBuf], ReceiveBufferSize: c24Ints[u.RecvBuf],
 					EnableRateLimiting: u.RateLimit, RateLimitConfig: rlc, Timeouts: u.timeouts()}
-				err = s.e.NFS.UpdateExportOptions(o)
+				err = upd(func() error { return s.e.NFS.UpdateExportOptions(o) })
+				if stuck {
+					break
+				}
 				// what the caller passed in is the caller's: editing it after the call returned changes nothing
 				afterCall := c24Describe(s.e.NFS.GetExportOptions())
 				if o.Timeouts != nil {
@@ -202,7 +215,7 @@ func runC24(tb stat.TB, c c24Case) {
 					if before.Squash == "all" {
 						o.Squash = "root"
 					}
-					if rerr := s.e.NFS.UpdateExportOptions(o); rerr != nil {
+					if rerr := upd(func() error { return s.e.NFS.UpdateExportOptions(o) }); rerr != nil && !stuck {
 						if d2 := c24Describe(s.e.NFS.GetExportOptions()); d2 != beforeDesc {
 							if stat.Violate(tb, id, check, "rejected-update-changes-configuration", c, "%s: GetExportOptions, in-place edit of the returned value, then an update rejected with %v; the configuration changed:\n before %s\n after  %s", what, rerr, beforeDesc, d2) {
 								return
@@ -216,17 +229,22 @@ func runC24(tb stat.TB, c c24Case) {
 				o.ReadOnly, o.Squash, o.MaxFileSize, o.TransferSize = u.ReadOnly, sq, int64(c24Ints[u.MaxFileSize]), c24Ints[u.TransferSize]
 				o.AttrCacheTimeout, o.AttrCacheSize, o.CacheNegativeLookups, o.NegativeCacheTimeout = c24Durs[u.AttrTTL], c24Ints[u.AttrCacheSize], u.NegCache, c24Durs[u.NegTTL]
 				o.EnableDirCache, o.MaxWorkers, o.EnableRateLimiting = u.DirCache, u.Workers, u.RateLimit
-				err = s.e.NFS.UpdateExportOptions(o)
+				err = upd(func() error { return s.e.NFS.UpdateExportOptions(o) })
 			case "tuning":
-				s.e.NFS.UpdateTuningOptions(func(t *absnfs.TuningOptions) {
+				upd(func() error {
+					s.e.NFS.UpdateTuningOptions(func(t *absnfs.TuningOptions) {
 					t.TransferSize, t.AttrCacheSize, t.AttrCacheTimeout = c24Ints[u.TransferSize], c24Ints[u.AttrCacheSize], c24Durs[u.AttrTTL]
 					t.NegativeCacheTimeout, t.DirCacheTimeout, t.DirCacheMaxEntries, t.DirCacheMaxDirSize = c24Durs[u.NegTTL], c24Durs[u.DirTTL], c24Ints[u.DirEntries], c24Ints[u.DirSize]
 					t.MaxWorkers, t.MaxConnections, t.IdleTimeout, t.SendBufferSize, t.ReceiveBufferSize = u.Workers, c24Ints[u.MaxConn], c24Durs[u.Idle], c24Ints[u.SendBuf], c24Ints[u.RecvBuf]
 					t.Timeouts = u.timeouts()
 					t.EnableDirCache, t.CacheNegativeLookups = u.DirCache, u.NegCache
+					})
+					return nil
 				})
 			case "policy":
-				err = s.e.NFS.UpdatePolicyOptions(absnfs.PolicyOptions{ReadOnly: u.ReadOnly, Squash: sq, MaxFileSize: int64(c24Ints[u.MaxFileSize]), EnableRateLimiting: u.RateLimit, RateLimitConfig: rlc})
+				err = upd(func() error {
+					return s.e.NFS.UpdatePolicyOptions(absnfs.PolicyOptions{ReadOnly: u.ReadOnly, Squash: sq, MaxFileSize: int64(c24Ints[u.MaxFileSize]), EnableRateLimiting: u.RateLimit, RateLimitConfig: rlc})
+				})
 			case "allow":
 				// the documented way of changing one setting: read the options, edit a copy, write them back - here one
 				// more allowed host is appended (the harness' own address first, so that it stays served), nothing else
@@ -238,8 +256,8 @@ func runC24(tb stat.TB, c c24Case) {
 					want = append(want, fmt.Sprintf("10.7.0.%d", len(want)))
 				}
 				o.AllowedIPs = append([]string(nil), want...)
-				err = s.e.NFS.UpdateExportOptions(o)
-				if err == nil {
+				err = upd(func() error { return s.e.NFS.UpdateExportOptions(o) })
+				if err == nil && !stuck {
 					got := s.e.NFS.GetExportOptions().AllowedIPs
 					if fmt.Sprint(got) != fmt.Sprint(want) {
 						if stat.Violate(tb, id, check, "accepted-update-not-in-force:AllowedIPs", c, "%s: UpdateExportOptions(GetExportOptions() with AllowedIPs = %v) returned nil, GetExportOptions().AllowedIPs = %v", what, want, got) {
@@ -257,6 +275,10 @@ func runC24(tb stat.TB, c c24Case) {
 						}
 					}
 				}
+			}
+			if stuck {
+				stat.Violate(tb, id, check, "update-never-returns", c, "%s did not return within %v although every request of the case had been answered: the export accepts no further update and serves nothing", what, updWait())
+				return
 			}
 			if zeroish {
 				nt = true
